@@ -13,6 +13,8 @@ ERR = {"bank_code": "InvalidBankCode", "branch_code": "InvalidBranchCode", "acco
 
 
 def run(ctx, report):
+    from .premises import accessor_entries, stateless_premise
+    stateless_premise(ctx, report, "R08-P1-stateless", ["generate"], extra=None, stop=("schwifty.bban.BBAN.validate_national_checksum",), outside=("schwifty.bic", "schwifty.checksum.germany"))
     prog = ctx.program
     reg = ctx.registry
     h = GenHarness(ctx)
@@ -117,6 +119,20 @@ def run(ctx, report):
                     r_gd.finding(f"from_components[{cc}]:{c}-too-long", f"{cc}: a {c} of {len(vals[c])} characters (field width {fields[c][1] - fields[c][0]}"
                                  + (f" + branch {fields['branch_code'][1] - fields['branch_code'][0]}" if c == 'bank_code' and 'branch_code' in fields else "")
                                  + f") {got}; expected {ERR[c]}", h.bban.methods["from_components"].where, witness={"country": cc, **vals})
+            # the same over-long component made of characters the country's national algorithm cannot digest (letters in a numeric field,
+            # punctuation): the length guard must still answer, with the component's own class - not whatever the algorithm makes of the text
+            for tag, ch in (("letters", "Z"), ("punctuation", "-")):
+                v3 = dict(vals)
+                v3[c] = ch * len(vals[c])
+                res3 = h.from_components(cc, **v3)
+                r_gd.instance(None)
+                if not (res3[0] == "exc" and res3[1].name == ERR[c]):
+                    bad["guard"] += 1
+                    if bad["guard"] <= 4:
+                        got3 = f"raises {res3[1].name}" if res3[0] == "exc" else f"returns {res3[1]!r}"
+                        r_gd.finding(f"from_components[{cc}]:{c}-too-long-{tag}", f"{cc}: a {c} of {len(v3[c])} characters ({v3[c]!r}: too long and of {tag}) {got3}; "
+                                     f"a component longer than its field must raise {ERR[c]} whatever it consists of", h.bban.methods["from_components"].where,
+                                     witness={"country": cc, **v3})
         # arbitrary characters: abstract evaluation
         ita = ctx.facts.interp(max_paths=6000)
         ita.no_split = 1
